@@ -990,6 +990,12 @@ class IRSpec:
             lv.st = s
             return lv
 
+        if hasattr(self, 'loop_extra'):
+            # a spec plug-in may add clauses (and the fields they talk about) to every loop invariant
+            xmods, xinv = self.loop_extra(fr.fi.qual, ordinal)
+            base_spec = spec
+            spec = LoopSpec(base_spec.shape, list(base_spec.modifies) + [m for m in xmods if m not in base_spec.modifies],
+                            lambda lv_, b_=base_spec: list(b_.inv(lv_)) + list(xinv(lv_)), base_spec.locals)
         def havoc(s):
             for f in spec.modifies:
                 if f == 'memo*':
